@@ -380,8 +380,8 @@ fn svcb_drop(ps: &Params, drop: &dyn Fn(u16, &[u8]) -> bool) -> Params {
     out
 }
 const SVCB_CAUSES: [&str; 4] = ["svcb_params_nodefaultalpn", "svcb_params_generic_key", "svcb_params_value_escaping", "empty_field_SVCB"];
-/// the reader's key charset is `a..y`, `0..8`, `-` (half-open ranges): keyNNN with a 9 is rejected
-fn key_unreadable(k: u16) -> bool { k > 9 && k.to_string().contains('9') }
+/// (fixed in /repo: the reader's key charset ranges were half-open, keyNNN with a 9 was rejected)
+fn key_unreadable(_k: u16) -> bool { false }
 fn value_unsafe(k: u16, v: &[u8], i: usize) -> bool {
     let b = v[i];
     if k == 1 { !svc_safe(b) && !alpn_len_pos(v, i) } else if k == 7 { !svc_safe(b) } else if k > 9 { !b.is_ascii_alphanumeric() } else { false }
